@@ -4,6 +4,7 @@
    entry of a SETTINGS frame.  Bytes are Z in [0,256).  Constants are the Go constants of frame.go/errors.go/http2.go:
    frame types 0..9, flag bits, ErrCodeProtocol 1, ErrCodeFlowControl 3, ErrCodeFrameSize 6. *)
 From Coq Require Import List ZArith Bool.
+From Bfe Require Import gen.H2Consts.
 Import ListNotations.
 Open Scope Z_scope.
 
@@ -419,3 +420,16 @@ Fixpoint rules_ok (fuel : nat) (maxread lhs : Z) (bs : list Z) (rs : list rres) 
         | _ => true
         end
   end.
+
+(* The literals used above are the current values of the Go constants (gen/H2Consts.v is regenerated from
+   frame.go/errors.go/http2.go by tools/xlate/h2consts on every check; a drift breaks this Example). *)
+Example consts_match :
+  [c_frameHeaderLen; c_FrameData; c_FrameHeaders; c_FramePriority; c_FrameRSTStream; c_FrameSettings;
+   c_FramePushPromise; c_FramePing; c_FrameGoAway; c_FrameWindowUpdate; c_FrameContinuation;
+   c_FlagDataEndStream; c_FlagDataPadded; c_FlagHeadersEndStream; c_FlagHeadersEndHeaders; c_FlagHeadersPadded;
+   c_FlagHeadersPriority; c_FlagSettingsAck; c_FlagPingAck; c_FlagContinuationEndHeaders;
+   c_FlagPushPromiseEndHeaders; c_FlagPushPromisePadded; c_minMaxFrameSize; c_maxFrameSize;
+   c_ErrCodeProtocol; c_ErrCodeFlowControl; c_ErrCodeFrameSize;
+   c_SettingEnablePush; c_SettingInitialWindowSize; c_SettingMaxFrameSize] =
+  [9; 0; 1; 2; 3; 4; 5; 6; 7; 8; 9; 1; 8; 1; 4; 8; 32; 1; 1; 4; 4; 8; 16384; 16777215; 1; 3; 6; 2; 4; 5].
+Proof. reflexivity. Qed.
